@@ -1180,8 +1180,11 @@ impl World {
                 }
             }
             let after = observe(&self.reps[i].m);
-            if after.s_value(true) != before.s_value(true) {
-                self.res.viol("C12", "meld-changes-state", before.diff(&after));
+            if after.doc != before.doc {
+                self.res.viol("C12", "meld-changes-document", before.diff(&after));
+            } else if after.s_value(true) != before.s_value(true) {
+                // C12 speaks of the document; other visible differences after a meld are only counted
+                self.res.count("meld_changed_state_but_not_document", 1);
             }
             return false;
         }
@@ -1246,8 +1249,10 @@ impl World {
         }
         self.reps[i].behind = true;
         let after = observe(&self.reps[i].m);
-        if after.s_value(true) != before.s_value(true) || after.anchors != before.anchors || after.stage != before.stage {
-            self.res.viol("C12", "meld-changes-state", before.diff(&after));
+        if after.doc != before.doc {
+            self.res.viol("C12", "meld-changes-document", before.diff(&after));
+        } else if after.s_value(true) != before.s_value(true) || after.anchors != before.anchors || after.stage != before.stage {
+            self.res.count("meld_changed_state_but_not_document", 1);
         }
         self.res.count("c12_maintenance_ops", 1);
         true
@@ -1279,8 +1284,12 @@ impl World {
                 }
                 let staged = before.has_staging;
                 if !was_behind && !staged {
-                    if after.s_value(true) != before.s_value(true) || after.anchors != before.anchors {
-                        self.res.viol("C12", &format!("{}-without-news-changes-state", name), before.diff(&after));
+                    if after.doc != before.doc {
+                        self.res.viol("C12", &format!("{}-without-news-changes-document", name), before.diff(&after));
+                    } else if after.s_value(true) != before.s_value(true) || after.anchors != before.anchors {
+                        // same storage, same document, other winners / conflicts / revision sets / heads: C12 speaks of the
+                        // document only; this is the same storage showing two states (C01: full reload vs what was loaded)
+                        self.res.viol("C01", &format!("{}-without-news-changes-state", name), before.diff(&after));
                     }
                     self.res.count("c12_maintenance_ops", 1);
                 }
